@@ -113,7 +113,22 @@ func (g *pgen) mainStmts(depth int, declared map[string]int) []zn.Stmt {
 	n := 1 + g.pick(5, "nstmts")
 	var out []zn.Stmt
 	for i := 0; i < n; i++ {
-		switch g.pick(13, "mk") {
+		switch g.pick(15, "mk") {
+		case 13, 14:
+			// 得到 NESTED inside a larger expression (the right side of an assignment, an argument
+			// of a call, a branch condition): the name belongs to the block the statement stands
+			// in, like any declaration made there
+			yn := []string{"R", "A", "X", "Y"}[g.pick(4, "nyl")]
+			call := &zn.Call{Name: "F1", Args: []zn.Expr{&zn.Num{Val: 0}}, Yield: yn}
+			switch g.pick(3, "nyform") {
+			case 0:
+				out = append(out, show("ny", call))
+			case 1:
+				out = append(out, &zn.ExprStmt{E: &zn.Assign{Target: &zn.Var{Name: mainNames[g.pick(3, "nyt")]}, E: call}})
+			default:
+				out = append(out, &zn.If{Conds: []zn.Expr{&zn.Bin{Op: ">", L: call, R: &zn.Num{Val: -1000}}}, Blocks: [][]zn.Stmt{{show("nyb", &zn.Var{Name: yn})}}})
+			}
+			g.labels["yield-nested-in-expression"] = true
 		case 12:
 			// 得到 after a method call on a VALUE binds a constant as well (R / A may be assigned later)
 			out = append(out, &zn.ExprStmt{E: &zn.MCall{Root: &zn.ListLit{Items: []zn.Expr{g.k()}}, Chain: []zn.Call{{Name: "后增", Args: []zn.Expr{g.k()}}}, Yield: []string{"R", "A", "X"}[g.pick(3, "myl")]}})
